@@ -68,6 +68,7 @@ fn entries_str(es: &[xr::EntryView]) -> String {
 /// `W<op start>[R=…;F=…]` per worker, from the recorder's log
 fn workers_str(params: &[xr::ParamsView], log: &[xr::Event], out: &mut Sink, what: &str) -> String {
     let mut parts = Vec::new();
+    let mut ranges: Vec<(Option<Key>, Option<Key>)> = Vec::new();
     for p in params {
         let mut items = Vec::new();
         let mut fin = None;
@@ -83,8 +84,9 @@ fn workers_str(params: &[xr::ParamsView], log: &[xr::Event], out: &mut Sink, wha
                         _ => "relink_next",
                     }));
                 }
-                xr::Event::Final { worker, inner, extra_freed, .. } if *worker == p.op_start => {
-                    fin = Some(format!("F={}|x{}", entries_str(inner), extra_freed.len()));
+                xr::Event::Final { worker, inner, extra_freed, low, high, .. } if *worker == p.op_start => {
+                    fin = Some(format!("F={}|x{}|l={}|h={}", entries_str(inner), extra_freed.len(), optkey_str(low), optkey_str(high)));
+                    ranges.push((*low, *high));
                 }
                 _ => {}
             }
@@ -94,6 +96,16 @@ fn workers_str(params: &[xr::ParamsView], log: &[xr::Event], out: &mut Sink, wha
         }
         items.push(fin.unwrap_or("F=?".into()));
         parts.push(format!("W{}[{}]", p.op_start, items.join(";")));
+    }
+    // C16: when every worker has returned the non-empty separator ranges are adjacent again: `high` of a worker = `low` of
+    // the next one whose range was not consumed entirely (`low = high`); the first is unbounded below, the last above
+    let live: Vec<(Option<Key>, Option<Key>)> = ranges.iter().cloned().filter(|r| !(r.0.is_some() && r.0 == r.1)).collect();
+    let adjacent = ranges.len() == params.len()
+        && live.first().map_or(true, |r| r.0.is_none())
+        && live.last().map_or(true, |r| r.1.is_none())
+        && live.windows(2).all(|w| w[0].1 == w[1].0);
+    if !adjacent {
+        out.fail(format!("C16 {what} stage: the separator ranges of the workers are not adjacent when the workers return: {:?}", ranges.iter().map(|r| (optkey_str(&r.0), optkey_str(&r.1))).collect::<Vec<_>>()));
     }
     parts.join(" ")
 }
@@ -167,13 +179,33 @@ fn directed_shapes(which: usize, m: usize) -> Vec<Shape> {
 /// untouched, nodes 4 and 5 get one update each — the merged node `rest(0) + node 2` is just above one node for some `d`,
 /// so that the worker needs a SECOND merge inside the unchanged range its right neighbour granted (the geometry of the
 /// seeded change `C01-branch-stage-stale-range-high`)
-const SWEEP: usize = 16;
-fn sweep_sizes(cap: usize, half: usize) -> Vec<usize> {
-    vec![cap - 5, half + 5, half + 20, half + 10, half + 10, half + 10]
+/// a second sweep (cases 24 … 39): as above but nodes 1 AND 2 are emptied — with three workers the middle worker owns node 1
+/// only, answers "left neighbor consumed our entire range" (relink), and the left worker re-sends its request to the third
+/// worker; the second merge happens inside the range the THIRD worker granted
+const SWEEP: usize = 32;
+fn sweep_sizes(cap: usize, half: usize, d: usize) -> Vec<usize> {
+    if d < 16 {
+        vec![cap - 5, half + 5, half + 20, half + 10, half + 10, half + 10]
+    } else {
+        vec![cap - 5, half + 5, half + 5, half + 20, half + 10, half + 10, half + 10]
+    }
 }
-fn sweep_shapes() -> Vec<Shape> {
+fn sweep_shapes(d: usize) -> Vec<Shape> {
     use Shape::*;
-    vec![DeleteTail, DeleteAll, Untouched, Untouched, Update, Update]
+    if d < 16 {
+        vec![DeleteTail, DeleteAll, Untouched, Untouched, Update, Update]
+    } else {
+        vec![DeleteTail, DeleteAll, DeleteAll, Untouched, Untouched, Update, Update]
+    }
+}
+/// how many items node 0 keeps in sweep step `d`: `keep + (the node it merges with)` runs across the capacity
+fn sweep_keep(cap: usize, sizes: &[usize], d: usize, slack: usize) -> usize {
+    let cap = (cap as i64 + std::env::var("VH_XR_SHIFT").ok().and_then(|s| s.parse::<i64>().ok()).unwrap_or(0)).max(0) as usize;
+    if d < 16 {
+        (cap + d).saturating_sub(sizes[2] + slack)
+    } else {
+        (cap + (d - 16)).saturating_sub(sizes[3] + slack)
+    }
 }
 
 /// which indices of a node of `n` items are deleted / how many keys are inserted / which one is updated
@@ -248,7 +280,7 @@ fn gen_branch(r: &mut Rng, next_id: &mut usize, pn: &mut u32, out: &mut Sink, di
     let probe_body = catch_unwind(AssertUnwindSafe(|| bu::make_node(&probe, 64, prefix_len(&probe[0].0, &probe[63].0), 1).view().body_size)).ok()?;
     let cap = (bu::BRANCH_NODE_BODY_SIZE - 48) * 64 / probe_body;
     let half = bu::BRANCH_MERGE_THRESHOLD * 64 / probe_body + 2;
-    let m = if sweep.is_some() { 6 } else { r.range(3, 10) };
+    let m = match sweep { Some(d) => sweep_shapes(d).len(), None => r.range(3, 10) };
     let mut level = Vec::new();
     let mut sizes = Vec::new();
     for j in 0..m {
@@ -257,7 +289,7 @@ fn gen_branch(r: &mut Rng, next_id: &mut usize, pn: &mut u32, out: &mut Sink, di
             1 => r.range(cap - 12, cap),
             _ => r.range(half + 2, cap),
         };
-        let n = if sweep.is_some() { sweep_sizes(cap, half)[j] } else { n.min(450) };
+        let n = match sweep { Some(d) => sweep_sizes(cap, half, d)[j], None => n.min(450) };
         sizes.push(n);
         let keys: Vec<Key> = (0..n).map(|i| branch_key(&p, plen, j, i * 4)).collect();
         let pl = if n <= 1 { separator_len(&keys[0]) } else { prefix_len(&keys[0], &keys[n - 1]) };
@@ -292,11 +324,11 @@ fn gen_branch(r: &mut Rng, next_id: &mut usize, pn: &mut u32, out: &mut Sink, di
         level.push(BNode { id, handle: h, view });
     }
     let shapes: Vec<Shape> = match (directed, sweep) {
-        (_, Some(_)) => sweep_shapes(),
+        (_, Some(d)) => sweep_shapes(d),
         (Some(w), _) => directed_shapes(w, m),
         _ => (0..m).map(|_| pick_shape(r)).collect(),
     };
-    let keep = sweep.map(|d| (cap + d).saturating_sub(sizes[2] + 3));
+    let keep = sweep.map(|d| sweep_keep(cap, &sizes, d, 3));
     let mut changes: Vec<(Key, Option<u32>)> = Vec::new();
     for (j, nd) in level.iter().enumerate() {
         let n = nd.view.items.len();
@@ -416,6 +448,7 @@ fn run_branch(ctx: &mut Ctx, sc: &BScenario, workers: usize, case: usize, out: &
     out.nontrivial(&line);
     out.line(op, line);
     out.add("branch_extra_freed", n_extra as u64);
+    pending_base_oracle("branch", &log, n_extra, workers, case, &sc.desc, out);
     // oracles
     let mut want: BTreeMap<Key, u32> = level.iter().flat_map(|n| n.view.items.iter().map(|it| (it.0, it.1))).collect();
     for (k, pn) in &sc.changes {
@@ -449,6 +482,20 @@ fn run_branch(ctx: &mut Ctx, sc: &BScenario, workers: usize, case: usize, out: &
         out.fail(format!("C19 branch stage with {workers} workers: a page allocated in this stage is freed twice or freed although it is part of the new level (case {case}: {})", sc.desc));
     }
     Some(BRes { content })
+}
+
+/// C19: a node that was written by the right worker and handed over as a pending base never becomes part of the level:
+/// its fresh page must be freed — as many freed fresh pages as pending bases handed over
+fn pending_base_oracle(what: &str, log: &[xr::Event], n_extra: usize, workers: usize, case: usize, desc: &str, out: &mut Sink) {
+    let handed = log
+        .iter()
+        .filter(|ev| matches!(ev, xr::Event::Response { changed, .. } if changed.last().map_or(false, |e| e.inserted.is_some())))
+        .count();
+    if handed != n_extra {
+        out.fail(format!(
+            "C19 {what} stage with {workers} workers: {handed} pending bases were handed over but {n_extra} fresh pages were freed (a page written in this stage leaks or is freed twice) (case {case}: {desc})"
+        ));
+    }
 }
 
 /// C13 / C16: what `prepare_workers` promises
@@ -542,7 +589,7 @@ fn gen_leaf(r: &mut Rng, next_id: &mut usize, pn: &mut u32, out: &mut Sink, dire
     let mut p = r.bytes32();
     p[0] = 0x40 | (p[0] & 0x3f);
     let sweep = directed.filter(|d| *d >= 8).map(|d| d - 8);
-    let m = if sweep.is_some() { 6 } else { r.range(3, 12) };
+    let m = match sweep { Some(d) => sweep_shapes(d).len(), None => r.range(3, 12) };
     let vsize = if sweep.is_some() { 20 } else { *r.pick(&[20usize, 40, 60, 100]) };
     let per = 34 + vsize;
     let cap = lu::LEAF_NODE_BODY_SIZE / per;
@@ -555,7 +602,7 @@ fn gen_leaf(r: &mut Rng, next_id: &mut usize, pn: &mut u32, out: &mut Sink, dire
             1 => r.range(cap.saturating_sub(3).max(half + 1), cap),
             _ => r.range(half + 1, cap),
         };
-        let n = if sweep.is_some() { sweep_sizes(cap, half)[j] } else { n };
+        let n = match sweep { Some(d) => sweep_sizes(cap, half, d)[j], None => n };
         sizes.push(n);
         let entries: Vec<lu::Entry> = (0..n)
             .map(|i| {
@@ -574,11 +621,11 @@ fn gen_leaf(r: &mut Rng, next_id: &mut usize, pn: &mut u32, out: &mut Sink, dire
         leaves.push(LLeaf { id, sep, pn: *pn, entries });
     }
     let shapes: Vec<Shape> = match (directed, sweep) {
-        (_, Some(_)) => sweep_shapes(),
+        (_, Some(d)) => sweep_shapes(d),
         (Some(w), _) => directed_shapes(w, m),
         _ => (0..m).map(|_| pick_shape(r)).collect(),
     };
-    let keep = sweep.map(|d| (cap + d).saturating_sub(sizes[2] + 6));
+    let keep = sweep.map(|d| sweep_keep(cap, &sizes, d, 6));
     let mut changes: Vec<(Key, Option<Vec<u8>>)> = Vec::new();
     for (j, lf) in leaves.iter().enumerate() {
         let n = lf.entries.len();
@@ -712,6 +759,7 @@ fn run_leaf(ctx: &mut Ctx, sc: &LScenario, workers: usize, case: usize, out: &mu
     out.nontrivial(&line);
     out.line(op, line);
     out.add("leaf_extra_freed", n_extra as u64);
+    pending_base_oracle("leaf", &log, n_extra, workers, case, &sc.desc, out);
     let mut want: BTreeMap<Key, Vec<u8>> = sc.leaves.iter().flat_map(|l| l.entries.iter().map(|e| (e.0, e.1.clone()))).collect();
     for (k, v) in &sc.changes {
         match v {
